@@ -10,13 +10,22 @@
    to every step as one that never prunes (C03_pruning_unobservable_over_runs, Sched/PruneRun.v: lockstep relation,
    thresholds monotone because last-step times never decrease; the repaired pruning rule, F6); assembling one
    simulator's inputs touches no other simulator's stores.
+   Over whole runs (Sched/PullRun.v, Sched/EventRun.v; premises pull_strict / push_strict = "due after t means an output
+   time after t - shift", certified by a computable check for flat scenarios):
+   - pulled inputs: the inputs of BEGIN(j,t) are those computed from the FINAL caches of the run, and a final cache is
+     the fold of everything its simulator ever produced: the value pulled is the most recent due value of the whole run;
+   - events: an entry stays buffered until a step of its simulator begins at or after its due time (no loss), that step
+     is given it and it never comes back (no duplication; entries are numbered), and after BEGIN(j,t) no entry that is
+     or becomes buffered for j is due at or before t - so an event is delivered by the FIRST step at or after its due time.
    Missing (C03_partial): the equality with the reference semantics for pushed persistent data (cache off) and for the
-   persistent memory.  "Produced so far" is "ever produced": C03_later_outputs_are_not_due - every output a provider
+   persistent memory (most recent among the delivered values: the order of the timed buffer); scenarios with groups
+   (sub-steps) for the strictness premises - there the data plane is keyed by the integer time only (known finding F11).
+   "Produced so far" is "ever produced": C03_later_outputs_are_not_due - every output a provider
    delivers after the consumer's BEGIN(j,t) has a delayed output time after t (from C01's guard, monotone progress and
    the lower-bound invariant). *)
 From Coq Require Import ZArith List Bool Arith.
 Import ListNotations.
-From MV Require Import Time.Spec Static.Build Sched.Timing Sched.Inv Sched.Main Sched.Certify Sched.Quiet Sched.Plane Sched.DataP Sched.PruneRun Sched.Final Sched.Later Sched.PullRun.
+From MV Require Import Time.Spec Static.Build Sched.Timing Sched.Inv Sched.Main Sched.Certify Sched.Quiet Sched.Plane Sched.DataP Sched.PruneRun Sched.Final Sched.Later Sched.PullRun Sched.EventRun.
 Open Scope Z_scope.
 
 Theorem C03_partial_events_exactly_once_never_early : forall dt ds i step inp ds',
@@ -137,5 +146,55 @@ Example C03_pull_nonvacuous :
   let sc := mkScen [None] (fun _ => 0%nat) (fun _ => TimeBased) 2 [mkConn 0 1 2 0 f false 0] [] 3 100 true true in
   match prepare 100 sc with
   | Prepared st dt t anc => check_static sc t anc = true /\ pull_strictb st dt = true /\ pulled dt 1 <> []
+  | _ => False end.
+Proof. vm_compute. repeat split; try reflexivity. discriminate. Qed.
+
+(* ---- the event (pushed) half over whole runs ---- *)
+(* no loss: an entry stays in the timed input buffer as long as no step of its simulator begins at or after its due time *)
+Theorem C03_events_kept_until_their_step : forall st dt evs s ds sf dsf j x, Ctr ds -> dfinal st dt s ds evs = Some (sf, dsf) ->
+  In x (buffer (ds j)) -> (forall t m, In (DBegin j t m) evs -> thd t < btime x) -> In x (buffer (dsf j)).
+Proof. exact event_kept. Qed.
+Print Assumptions C03_events_kept_until_their_step.
+
+(* no duplication: the step that finds the entry due is given it, and the entry never reappears afterwards (entries are
+   numbered; Ctr: every buffered entry's number is below the counter, true initially and preserved) *)
+Theorem C03_events_delivered_by_their_step : forall st dt s ds j t m s' ds' inp x,
+  dapply_gen false st dt (s, ds) (DBegin j t m) = DOk s' ds' inp -> In x (buffer (ds j)) -> btime x <= thd t ->
+  In x (sort_b (filter (fun e => btime e <=? thd t) (buffer (ds j)))) /\ ~ In x (buffer (ds' j)).
+Proof. exact event_delivered. Qed.
+Print Assumptions C03_events_delivered_by_their_step.
+Theorem C03_events_never_delivered_again : forall st dt evs s ds sf dsf j x, Ctr ds -> dfinal st dt s ds evs = Some (sf, dsf) ->
+  ~ In x (buffer (ds j)) -> (bctr x < bcount (ds j))%nat -> ~ In x (buffer (dsf j)).
+Proof. exact event_gone. Qed.
+Print Assumptions C03_events_never_delivered_again.
+
+(* at the first step at or after the due time: after BEGIN(j,t), nothing that is or becomes buffered for j is due at or
+   before t (what a provider pushes later is due later) - so the entries the next step of j finds due were due after t *)
+Theorem C03_no_event_is_overdue : forall st dt, static_ok st -> push_strict st dt ->
+  forall pre j t m post sp dsp s1 ds1 inp sf dsf, in_range st post ->
+  dfinal st dt (init_state st) (init_dstate dt) pre = Some (sp, dsp) ->
+  dapply_gen false st dt (sp, dsp) (DBegin j t m) = DOk s1 ds1 inp ->
+  dfinal st dt s1 ds1 post = Some (sf, dsf) ->
+  forall x, In x (buffer (dsf j)) -> thd t < btime x.
+Proof. exact no_event_overdue. Qed.
+Print Assumptions C03_no_event_is_overdue.
+Theorem C03_push_strict_certified : forall st dt, push_strictb st dt = true -> push_strict st dt.
+Proof. exact push_strictb_sound. Qed.
+Print Assumptions C03_push_strict_certified.
+
+(* non-vacuity: A (time-based) -> trigger input of B (event-based): the tables pass the check, A pushes to B, and in the
+   run below (A performs both steps first) B's step at 0 is given only the event due at 0, its step at 1 the one due at 1 *)
+Example C03_events_nonvacuous :
+  let f := mkF true true false true false 0 false false true in
+  let sc := mkScen [None] (fun _ => 0%nat) (fun i => if Nat.eqb i 0 then TimeBased else EventBased) 2
+                   [mkConn 0 1 2 1 f false 0] [] 2 100 false true in
+  let evs := [DEv (EvStart 0); DEv (EvStart 1); DBegin 0 [0] 2; DEv (EvStep 0 (Some 1)); DData 0 0 [2%nat] [(2%nat,7)];
+              DBegin 0 [1] 2; DEv (EvStep 0 (Some 2)); DData 0 1 [2%nat] [(2%nat,8)];
+              DBegin 1 [0] 0; DEv (EvStep 1 None); DBegin 1 [1] 2; DEv (EvStep 1 None)] in
+  match prepare 100 sc with
+  | Prepared st dt t anc =>
+      check_static sc t anc = true /\ push_strictb st dt = true /\ pushes dt 0 <> [] /\
+      filter (fun o => match o with Some _ => true | None => false end) (dinputs false st dt (init_state st) (init_dstate dt) evs) =
+        [Some []; Some []; Some [(1%nat, [(0%nat, Some 7)])]; Some [(1%nat, [(0%nat, Some 8)])]]
   | _ => False end.
 Proof. vm_compute. repeat split; try reflexivity. discriminate. Qed.
